@@ -7,7 +7,7 @@ import prelude as P
 import genlib as G
 
 F = "routee-compass/src/app/compass/compass_app_ops.rs"
-OBLIGATIONS = ["apply_load_balancing_policy"]
+OBLIGATIONS = ["apply_load_balancing_policy", "min_bin"]
 MUST_FAIL = ["vacuity_probe"]
 
 HEAD = """
@@ -17,10 +17,10 @@ HEAD = """
 impl vstd::std_specs::convert::FromSpecImpl<PluginError> for CompassAppError { open spec fn obeys_from_spec() -> bool { false } open spec fn from_spec(v: PluginError) -> CompassAppError { arbitrary() } }
 impl From<PluginError> for CompassAppError { #[verifier::external_body] fn from(e: PluginError) -> CompassAppError { unimplemented!() } }
 impl Value { #[verifier::external_body] pub fn get_query_weight_estimate(&self) -> (r: Result<Option<f64>, CompassAppError>) { unimplemented!() } }
-// min_bin: index of a least total (iterator pipeline in the real code; assumed here, its emptiness/no-panic behaviour is a Kani harness)
-#[verifier::external_body] pub fn min_bin(bins: &[f64]) -> (r: Result<usize, PluginError>)
-    ensures r matches Ok(i) ==> i < bins@.len(), bins@.len() > 0 ==> r is Ok, bins@.len() == 0 ==> r is Err
-{ unimplemented!() }
+// min_bin is VERIFIED below (rule R-minby); ordered_float::OrderedFloat as a shim: a total order that is the order of the reals (A-REAL)
+pub struct OrderedFloat(pub f64);
+impl OrderedFloat { #[verifier::external_body] pub fn lt(&self, o: &OrderedFloat) -> (r: bool) ensures r == (f64_real(self.0) < f64_real(o.0)) { self.0 < o.0 } }
+#[verifier::external_body] pub fn verif_plugin_error() -> PluginError { unimplemented!() }
 // std function vstd does not specify (assumed): Result::unwrap_or
 pub assume_specification<T, E> [ Result::<T, E>::unwrap_or ](r: Result<T, E>, default: T) -> (o: T)
     ensures r matches Ok(v) ==> o == v, r is Err ==> o == default;
@@ -53,6 +53,36 @@ pub proof fn lemma_bin_extend(queries: Seq<Value>, o1: Seq<int>, o2: Seq<int>, k
 
 def build(x):
     parts = [P.f64_real(), HEAD]
+    # ---- min_bin (rule R-minby) ----
+    mb = x.fn(F, "fn min_bin")
+    mb.rewrite(r"(\w+)\s*\.iter\(\)\s*\.enumerate\(\)\s*\.min_by_key\(\|\(_i, w\)\| ([^\n]*?)\)\s*\.map\(\|\(i, _w\)\| i\)",
+               r"""{
+        // rule R-minby: `S.iter().enumerate().min_by_key(|(_i, w)| KEY).map(|(i, _w)| i)` written as the loop it denotes: the index of the FIRST element of least key (std: "if several
+        // elements are equally minimum, the first element is returned"); KEY is the closure's verbatim body
+        let mut verif_best: Option<usize> = None;
+        let mut verif_j: usize = 0;
+        while verif_j < \1.len()
+            invariant 0 <= verif_j <= \1@.len(), verif_j == 0 <==> verif_best is None,
+                verif_best matches Some(b) ==> b < verif_j && forall|q: int| 0 <= q < verif_j ==> f64_real(\1@[b as int]) <= f64_real(#[trigger] \1@[q]),
+            decreases \1@.len() - verif_j,
+        {
+            let verif_better = match verif_best {
+                None => true,
+                Some(verif_b) => { let w = &&\1[verif_j]; let verif_kj = \2; let w = &&\1[verif_b]; let verif_kb = \2; verif_kj.lt(&verif_kb) }
+            };
+            if verif_better { verif_best = Some(verif_j); }
+            verif_j = verif_j + 1;
+        }
+        verif_best
+    }""", 1, 1, rule="R-minby")
+    x.note("R-minby", "min_bin: `bins.iter().enumerate().min_by_key(|(_i, w)| OrderedFloat(**w)).map(|(i, _w)| i)` written as the loop it denotes (index of the first element of least key; the key expression is the closure's verbatim body; `<` of OrderedFloat is the order of the reals: A-REAL)")
+    mb.rewrite(r"\.ok_or_else\(\|\| \{\s*PluginError::InternalError\(String::from\([^)]*\)\)\s*\}\)", ".ok_or_else(|| -> (er: PluginError) { verif_plugin_error() })", 1, 1, rule="R-format")
+    mb.name_return("r")
+    mb.add_spec("""    ensures
+        // the index of a bin of LEAST total (the first such); an error only for no bins at all
+        bins@.len() == 0 <==> r is Err,
+        r matches Ok(i) ==> i < bins@.len() && forall|q: int| 0 <= q < bins@.len() ==> f64_real(bins@[i as int]) <= f64_real(#[trigger] bins@[q]),""")
+    mb.body_start("    broadcast use areal; proof { areal_obeys(); }")
     f = x.fn(F, "fn apply_load_balancing_policy")
     f.rewrite(r"&\[serde_json::Value\]", "&[Value]", 1, 1, rule="R-path")
     f.rewrite(r"Vec<Vec<&serde_json::Value>>", "Vec<Vec<&Value>>", 2, 2, rule="R-path")
@@ -96,6 +126,7 @@ def build(x):
                 }
             }
         }""")
+    parts.append(mb.text + "\n")
     parts.append(f.text)
     parts.append("""
 // vacuity guard: MUST FAIL
